@@ -145,6 +145,16 @@ def run_case(case, seed):
                     r.true('basis_decomposition:single_core', isinstance(c, np.ndarray) and c.shape == T.cores[i].shape and np.array_equal(c, T.cores[i]),
                            'single_core=%d differs from core %d of the full train' % (i, i))
         r.true('basis_decomposition:data-unchanged', np.array_equal(x, x0))
+        # call history: the caller refills the SAME snapshot buffer (next batch, centring in place) and calls again with the same
+        # basis list: the result describes the buffer's current contents
+        x[...] = 0.5 * x[:, ::-1] - 0.1
+        want2 = psi_oracle(np.array(x), basis)
+        with r.op('basis_decomposition:refilled-buffer:call'):
+            T2 = tdt.basis_decomposition(x, basis)
+            if check_tt(r, 'basis_decomposition:refilled-buffer', T2, want2):
+                c2 = tdt.basis_decomposition(x, basis, single_core=len(basis) - 1)
+                r.true('basis_decomposition:refilled-buffer:single_core', isinstance(c2, np.ndarray) and np.array_equal(c2, T2.cores[len(basis) - 1]),
+                       'single core after the buffer was refilled')
     elif k == 'cmfm':
         d, m = case['d'], case['m']
         x = data(rng, d, m, case['fam']); x0 = x.copy()
